@@ -377,6 +377,94 @@ def rule_D(run, prog, routines):
     run.obligation(rid, "DensityMatrixEvolution.convert_from_RWA", not he, key="hermiticity",
                    message="RWA conversion does not keep Hermiticity; residue %s" % show_normal(he, 3),
                    loc=cf.loc(), sample={"identity": "(U rho U^+)^+ = U rho U^+"})
+    # the sibling conversion of state-vector evolutions: psi_a(t) -> u_a(t) psi_a(t), component by
+    # component, with the same unit-modulus phases
+    sf = prog.func("quantarhei.qm.propagators.statevectorevolution.StateVectorEvolution.convert_from_RWA")
+    sloops = [n for n in walk_no_nested(sf.node) if isinstance(n, ast.For)]
+    if len(sloops) != 1 or norm(sloops[0].iter) != "enumerate(self.TimeAxis.data)":
+        raise AnalysisError("StateVectorEvolution.convert_from_RWA: loop over enumerate(self.TimeAxis.data) not found")
+    slp = sloops[0]
+    si, st_ = [e.id for e in slp.target.elts]
+    sdata = Array.opaque("P", 2)
+    sself = Obj("self", attrs={"_data": sdata}, alias={"data": "_data"})
+    it2 = Interp(prog, lenient=False)
+    it2.stack.append(sf)
+    it2.loops = []
+    ok_sv, detail = True, ""
+    try:
+        it2.exec_body(slp.body, {"self": sself, "HOmega": Array.opaque("w", 1), si: Index("i"),
+                                 st_: Expr.factor("t"), "sgn": Expr.factor("sgn")})
+        snew = sself.get("data")
+        unit2 = []
+        for nm, (fn, arg, idx) in it2.fn_args.items():
+            if fn == "exp":
+                argt = arg.template if isinstance(arg, Array) else arg
+                if not normal(argt.conj() + argt, Facts(real=["w", "t", "sgn"])):
+                    unit2.append(nm)
+        f2 = Facts(real=["w", "t", "sgn"], unit_modulus=unit2)
+        g2 = snew.at("i", "a")
+        res = normal(g2 * g2.conj() - Expr.factor("P", ("i", "a")) * Expr.factor("P", ("i", "a")).conj(), f2)
+        ok_sv = not res and bool(unit2)
+        detail = "psi'[i,a] = %s" % show_normal(normal(g2, f2), 3)
+    finally:
+        it2.stack.pop()
+    run.obligation(rid, "StateVectorEvolution.convert_from_RWA", ok_sv, key="componentwise-phases",
+                   message="the conversion of a state-vector evolution must multiply every component by its own "
+                           "unit-modulus phase (|psi'_a| = |psi_a|); found %s" % detail, loc=sf.loc(),
+                   sample={"identity": "|u_a psi_a|^2 = |psi_a|^2 for every component"})
+    # origin of the rotating frame: the conversions use the absolute times of the axis, so the frame
+    # coincides with the laboratory frame at t = 0, not at the start of the axis.  The propagators
+    # take the initial state as the state at the first point of the axis; they must bring it into
+    # the rotating frame there, with the conjugate of the phases the conversion applies at that time.
+    from .. import pat
+    absolute = all(not any(isinstance(x, ast.Sub) for x in ast.walk(a.value))
+                   for l_ in (lp, slp) for a in ast.walk(l_) if isinstance(a, ast.Assign)
+                   and isinstance(a.value, ast.Call) and "exp" in norm(a.value))
+    pairs = (("quantarhei.qm.propagators.rdmpropagator.ReducedDensityMatrixPropagator", "self.Hamiltonian", "self.TimeAxis"),
+             ("quantarhei.qm.propagators.svpropagator.StateVectorPropagator", "self.ham", "self.timeaxis"))
+    for q, hexpr, texpr in pairs:
+        pc = prog.cls(q)
+        pf = pc.methods["propagate"]
+        p0 = pf.node.args.args[1].arg
+        ok, why = True, ""
+        if absolute:
+            top = [s_ for s_ in pf.node.body if isinstance(s_, ast.If) and norm(s_.test) == hexpr + ".has_rwa"]
+            helper = None
+            for s_ in top:
+                for b_ in s_.body:
+                    if isinstance(b_, ast.Assign) and norm(b_.targets[0]) == p0 and isinstance(b_.value, ast.Call) \
+                            and isinstance(b_.value.func, ast.Attribute) and norm(b_.value.func.value) == "self" \
+                            and [norm(a_) for a_ in b_.value.args] == [p0]:
+                        helper = prog.find_method(pc, b_.value.func.attr)
+                        site = s_
+            if helper is None:
+                ok, why = False, "propagate() does not bring the initial state into the rotating frame when the " \
+                                 "Hamiltonian has RWA set"
+            else:
+                # the conversion must precede every dispatch to a propagation routine
+                disp = [n for n in walk_no_nested(pf.node) if isinstance(n, ast.Return) and n.value is not None
+                        and isinstance(n.value, ast.Call) and "propagate" in norm(n.value.func)
+                        and not norm(n.value.func).endswith(".propagate")]
+                late = [n for n in disp if n.lineno < site.lineno]
+                htx = [norm(x) for x in ast.walk(helper.node) if isinstance(x, ast.stmt)]
+                hp = helper.node.args.args[1].arg
+                e1, _ = pat.seq(htx, ["$T0 = %s.data[0]" % texpr, "$W = %s.get_RWA_skeleton()" % hexpr])
+                phase_ok = e1 is not None and any(
+                    ("numpy.exp(1j * %s * %s)" % (e1["W"], e1["T0"])) in x for x in htx)
+                mut = [x for x in ast.walk(helper.node) if isinstance(x, (ast.Assign, ast.AugAssign))
+                       and any(norm(t_).startswith(hp + ".") or norm(t_).startswith(hp + "[")
+                               for t_ in (x.targets if isinstance(x, ast.Assign) else [x.target]))]
+                if late:
+                    ok, why = False, "a propagation routine is entered before the initial state is converted"
+                elif not phase_ok:
+                    ok, why = False, "the helper %s does not apply exp(+i Omega t0) with t0 the first point of the " \
+                                     "axis and Omega the RWA skeleton" % helper.short
+                elif mut:
+                    ok, why = False, "the helper writes into the caller's initial state"
+        run.obligation(rid, pc.name + ".propagate", ok, key="frame-origin",
+                       message="rotating frame and initial state: %s (the conversions use %s times)"
+                               % (why, "absolute" if absolute else "relative"), loc=pf.loc(),
+                       sample={"conversion_times": "absolute" if absolute else "relative to the start of the axis"})
     # inverse: sgn -> -sgn gives the inverse phases (u(sgn) * u(-sgn) = 1): structural
     ut = [n for n in ast.walk(lp) if isinstance(n, ast.Assign) and norm(n.targets[0]) == "Ut"]
     ok = len(ut) == 1 and norm(ut[0].value) == "numpy.diag(numpy.exp(-sgn * 1j * HOmega * t))"
